@@ -206,7 +206,7 @@ def main(argv):
         # ------------------------------------------------------------ single-stream cases
         cases = []          # (bucket, data, backing, args, keyfun for the oracle, (fields, delimhex) for the harness)
         kinds = ["small-alphabet", "dups-at-distance", "binary", "crlf", "long-lines"]
-        reps = 40 if not thorough else 400
+        reps = 100 if not thorough else 400
         for kind in kinds:
             for i in range(reps if kind != "long-lines" else max(4, reps // 8)):
                 cases.append((kind, gen_stream(rng, kind), BACKINGS[(i + len(cases)) % 5], [], None, ("-", "09")))
@@ -325,7 +325,7 @@ def main(argv):
 
         # ------------------------------------------------------------ parallel mode
         pcases = []
-        preps = 60 if not thorough else 600
+        preps = 150 if not thorough else 600
         for i in range(preps):
             n = rng.choice([1, 3, 10, 40, 200])
             if i % 3 == 2:
